@@ -105,7 +105,8 @@ def q_shape(shape, chans):
         out2 = raw_rel(seq)
         er2, dr2 = rel_events(out2)
         # canonical content (timed events in order + duration); how a rest is cut into wait messages is not music
-        ctx.must("idempotent", and_(events_eq_positionwise(er, er2), eq(dr, dr2)))
+        # (claimed by the statement for inputs whose notes were already paired)
+        ctx.must("idempotent", implies(paired, and_(events_eq_positionwise(er, er2), eq(dr, dr2))))
         ea, da = abs_events(raw_abs(seq))
         ctx.must("abs_view_same_duration", eq(da, total))
         return [obs_rel(first), obs_rel(out2), da]
